@@ -7,6 +7,7 @@ import (
 	"errors"
 	"fmt"
 	"os"
+	"runtime"
 	"testing"
 	"time"
 
@@ -90,6 +91,12 @@ func decodeOptions(c map[string]any) (*verify.Options, *gen.Getter) {
 func replayVerifyRaw(c map[string]any) string {
 	raw, _ := hex.DecodeString(c["raw_hex"].(string))
 	o, _ := decodeOptions(c)
+	if n, ok := c["gomaxprocs"].(float64); ok && n >= 1 {
+		defer runtime.GOMAXPROCS(runtime.GOMAXPROCS(int(n)))
+	}
+	if k, ok := c["prehistory"].(float64); ok {
+		optionsPrehistory(raw, o, int(k), nil)
+	}
 	v := gen.Call(func() error { return verify.RawTdxQuote(raw, o) })
 	if ph, ok := c["proto_hex"].(string); ok {
 		// the case is a message (which raw bytes cannot express, e.g. a field of another size): raw_hex is the genuine quote
